@@ -28,14 +28,15 @@ Definition get_n (tbits n : N) (r : reader) : outcome (N * reader) :=
 
 Definition is_aligned (r : reader) : bool := (rpos r mod 8) =? 0.
 
-(* available() compared with a constant: `has_at_least k l` <-> length l >= k *)
-Fixpoint has_at_least (k : nat) (l : list bool) : bool :=
-  match k with
-  | O => true
-  | S k' => match l with [] => false | _ :: t => has_at_least k' t end
+(* available() compared with a number: `has_at_least l k` <-> length l >= k; structural on the
+   list so that a huge (attacker-chosen) k costs nothing *)
+Fixpoint has_at_least (l : list bool) (k : N) : bool :=
+  match l with
+  | [] => k =? 0
+  | _ :: t => if k =? 0 then true else has_at_least t (k - 1)
   end.
-Definition avail_ge (k : N) (r : reader) : bool := has_at_least (N.to_nat k) (rbits r).
-Definition avail_gt (k : N) (r : reader) : bool := has_at_least (S (N.to_nat k)) (rbits r).
+Definition avail_ge (k : N) (r : reader) : bool := has_at_least (rbits r) k.
+Definition avail_gt (k : N) (r : reader) : bool := has_at_least (rbits r) (k + 1).
 Definition avail_eq (k : N) (r : reader) : bool := avail_ge k r && negb (avail_gt k r).
 
 (* read_unary1: number of 0 bits before the first 1 (consumes the 1) *)
